@@ -441,6 +441,21 @@ def h_dict(I, st, fv, args, kwargs, ctx):
         for (k, v) in st.heap[kwargs["$symbolic_kwargs"].oid].fields["$entries"]:
             I.dict_store(st, r, k, v)
         return [(st, r)]
+    if "$symbolic_kwargs" in kwargs and len(kwargs) == 1 and len(args) == 1 and isinstance(args[0], Ref) \
+            and st.heap[args[0].oid].kind == "dict" and isinstance(kwargs["$symbolic_kwargs"], Ref) \
+            and st.heap[kwargs["$symbolic_kwargs"].oid].kind == "dict":
+        from . import objects
+        a = args[0]
+        if st.heap[a.oid].ckeys is not None:
+            # a dict with known keys as first operand: give it the symbolic representation first
+            ha = st.heap[a.oid]
+            vals = z3.K(V, I.U.NONE)
+            for kk in ha.ckeys:
+                vals = z3.Store(vals, I.U.lit(kk), I.term(I.dict_load_c(st, a, kk)))
+            a = I.alloc_dict(st, keys=ha.keys, vals=vals)
+        u = objects.union_dict(I, st, a, kwargs["$symbolic_kwargs"])
+        if u is not None:
+            return [(st, u)]
     if "$symbolic_kwargs" in kwargs:
         # dict(a, **b) with a symbolic b: a fresh dict about which nothing is assumed (sound
         # over-approximation of the union)
